@@ -2437,7 +2437,12 @@ class HTTPChannel(basic.LineReceiver, policies.TimeoutMixin):
         if header == b"Content-Length":
             if not data.isdigit():
                 return self._failChooseTransferDecoder()
-            length = int(data)
+            try:
+                length = int(data)
+            except ValueError:
+                # More digits than Python is willing to convert: no request
+                # body can be that long.
+                return self._failChooseTransferDecoder()
             newTransferDecoder = _IdentityTransferDecoder(
                 length, self.requests[-1].handleContentChunk, self._finishRequestBody
             )
